@@ -232,6 +232,9 @@ func genCase(t *rapid.T) Case {
 		if rapid.IntRange(0, 1).Draw(t, "withover") == 0 {
 			run.Over = genOver(t, len([]rune(run.Text)))
 		}
+		if run.How == howGlyphs && rapid.IntRange(0, 2).Draw(t, "withrise") == 0 {
+			run.Rise = rapid.SliceOfN(rapid.IntRange(0, maxRunes-1), 1, 3).Draw(t, "rise")
+		}
 		c.Runs = append(c.Runs, run)
 	}
 
@@ -298,6 +301,7 @@ func classify(c *Case) (bool, []string) {
 		add(o.nonASCII, "non-ascii")
 		add(o.ligature, "ligature")
 		add(o.override, "override")
+		add(o.riseChange, "rise-change-inside-run")
 		add(o.manyCodes, "codes>64")
 		add(o.exact256, "exactly-256-codes")
 		add(o.notdef, "notdef-glyph")
